@@ -168,10 +168,20 @@ def run(pid, tier, seed, replay, mode):
     cases = []
     dist = dict(kinds={}, vars={}, nodes=0, rows=0, clt_leaves=0, missing_cells={})
     corpus_dir = os.path.join(C.ROOT, "corpus", pid)
-    for i in range(ncirc):
-        root = gen_circuit(rs, i, tier)
+    def stream():
+        for i in range(ncirc):
+            yield gen_circuit(rs, i, tier), False
+        if mode == "marg":
+            # learned circuits (structured-decomposable XPCs and LearnSPN with Chow-Liu leaves): their leaves have been through
+            # the learners' own sequence of constructor / fit calls
+            from . import c10
+            for r in c10.learned_circuits(rs, 4 if tier == "quick" else 24):
+                yield r, True
+    for root, learned in stream():
         points = make_points(root, rs)
-        tab = G.Table(root, points)
+        tab = G.Table(root, points, renorm=learned)      # learned float32 vectors sum to one up to rounding: re-normalised exactly (bounded)
+        if learned and float(tab.max_adjust) > 1e-5:
+            rep.violation(dict(kind="learned-parameters-not-normalised", max_adjustment=float(tab.max_adjust), circuit=tab.brief()), True)
         dom = tab.domains()
         scope = sorted(tab.root_scope())
         width = max(scope) + 1
